@@ -123,7 +123,8 @@ def load_units():
 RE_ERR = re.compile(r'^(error|warning)(\[[A-Z0-9]+\])?: (.*)$')
 RE_LOC = re.compile(r'^\s*--> ([^:]+):(\d+):(\d+)')
 RE_OB = re.compile(r'/\*OB:([^:\s]+):([A-Z0-9,]*)\*/')
-PRIMS = ('take', 'put', 'peek', 'drop_range', 'range', 'forget', 'bitcopy_dead', 'add', 'from_raw_parts', 'cast', 'call', 'clone_', 'next_', 'write_str')
+PRIMS = ('take', 'put', 'peek', 'drop_range', 'range', 'forget', 'bitcopy_dead', 'add', 'from_raw_parts', 'cast', 'call', 'clone_', 'next_', 'write_str',
+         'shift_down', 'swap', 'read_prefix_as_array', 'drop_owned', 'deref', 'write_prefix', 'subslice', 'scope_exit_unowned')
 
 
 def parse_errors(stderr, genfile):
